@@ -2,7 +2,7 @@
 prop_config() {
   local p=$1 tier=$2
   case "$p" in
-    C05|C10|C13|C14|C16|C18) RACE="-race";;
+    C05|C10|C13|C16|C18) RACE="-race";;
   esac
   case "$p" in
     C10|C13|C16) INSTR="group rtpconn unbounded diskwriter token";;
